@@ -228,7 +228,8 @@ class kFlowDecompCycles(walkmodel.AbstractWalkModelDiGraph):
         for u, v, data in self.G.edges(data=True):
             if (u, v) in self.edges_to_ignore:
                 continue
-            f_u_v = data[self.flow_attr]
+            # float(): the solver's `==` accepts Python numbers only, not numpy integer or float32 scalars
+            f_u_v = float(data[self.flow_attr])
 
             # We encode that edge_vars[(u,v,i)] * self.path_weights_vars[(i)] = self.pi_vars[(u,v,i)],
             # assuming self.w_max is a bound for self.path_weights_vars[(i)]
